@@ -87,6 +87,10 @@ func (p *MACPayload) UnmarshalBinary(uplink bool, data []byte) error {
 		return err
 	}
 
+	// reset the optional fields (in case p has been used before)
+	p.FPort = nil
+	p.FRMPayload = nil
+
 	// decode the optional FPort
 	if dataLen > 7+int(p.FHDR.FCtrl.fOptsLen) {
 		fPort := uint8(data[7+int(p.FHDR.FCtrl.fOptsLen)])
